@@ -16,7 +16,7 @@ def extra(ck, rec):
 
 
 vf.main_wrapper(lambda: swprop.run(
-    "C10", ["ScanWalk-F10-inodes.cfg", "ScanWalk-F10-cancel.cfg", "ScanWalk-F10-gitlim.cfg"], [], [],
+    "C10", ["ScanWalk-F10-inodes.cfg", "ScanWalk-F10-cancel.cfg", "ScanWalk-F10-gitlim.cfg", "ScanWalk-F5-links.cfg"], [], [],
     ["stream/plain", "fallback/nasty"],
     "every tree (<= 3-4 nodes) x every inode limit 0..n+1 x 1..2 roots; x every cancellation point (before the scan, from the n-th AfterInodeVisited callback, "
     "from inside the k-th Extract) x size limit with files below/at/above it x two listing orders; the harness observes Extract calls, AfterInodeVisited, "
